@@ -15,9 +15,13 @@ from harness import cgen, pools, wgen
 from harness.abstraction import Catalog, NOENC, cps
 from harness.wdriver import run_writer
 
-TEXTS = [t for t in pools.TEXTS if '#.' not in t and '\r' not in t and '\x00' not in t and '\x0b' not in t and '\x85' not in t] + ['plain\n', 'two\nlines\n', 'a\n...\nb\n', '...\nfirst line is an elision\n', '# heading\ntext\n']
+TEXTS = [t for t in pools.TEXTS if '#.' not in t and '\r' not in t and '\x00' not in t and '\x0b' not in t and '\x85' not in t] + ['plain\n', 'two\nlines\n', 'a\n...\nb\n', '...\nfirst line is an elision\n', '# heading\ntext\n',
+         # a '#', some characters, a section name and a colon - but never '#.' : ordinary content
+         '# meta: not a header\n', 'see # change: below\nmore\n', '#xmeta: y\n#  file: z\n', 'a #1diff: b\n', '#-preamble:\n',
+         '# diffx: 1\n', 'text #\tmeta:\n']
 METAS = [m for m in pools.METAS if '#.' not in repr(m)]
-DIFFS = [b'x\n...\ny\n', b'# HG changeset patch\n--- a\n+++ b\n', b'--- a\n+++ b\n@@ -1 +1 @@\n-a\n+b\n', b'x\n', b'Binary files differ\n', b'@@ -1,2 +1,2 @@\n a\n-b\n+c\n', b'delta 12\n']
+DIFFS = [b'x\n...\ny\n', b'# HG changeset patch\n--- a\n+++ b\n', b'--- a\n+++ b\n@@ -1 +1 @@\n-a\n+b\n', b'x\n', b'Binary files differ\n', b'@@ -1,2 +1,2 @@\n a\n-b\n+c\n', b'delta 12\n',
+         b'--- a\n+++ b\n@@ -1 +1 @@\n-# meta: old\n+# change: new\n', b'# a diff: see below\n--- a\n+++ b\n']
 
 
 def lex(text):
